@@ -377,6 +377,10 @@ func (e *Env) GenOp(t *rapid.T) Op {
 	switch kind {
 	case "publish":
 		n := pick(t, []int{0, 1, 1, 1, 2, 2, 3, 3, 4, 5, 6}, "batch")
+		if uni(t, 25, "big_batch") == 0 {
+			// crosses the 32-message batches the trim/compaction helpers read in, also inside one segment
+			n = 20 + uni(t, 30, "big_n")
+		}
 		op := Op{Kind: "publish", Msgs: make([]MsgIn, n)}
 		last := e.genLastTS()
 		for i := range op.Msgs {
@@ -445,6 +449,24 @@ func (e *Env) Case() *HCase {
 // Finish records the case in the statistics and classifies it by the property's non-trivial rule.
 func (e *Env) Finish() {
 	e.St.Eval(1)
+	switch {
+	case e.liveMax > 64:
+		e.St.Inc("size.max_live>64")
+	case e.liveMax > 32:
+		e.St.Inc("size.max_live_33..64")
+	case e.liveMax > 8:
+		e.St.Inc("size.max_live_9..32")
+	default:
+		e.St.Inc("size.max_live<=8")
+	}
+	switch {
+	case e.segsMax > 8:
+		e.St.Inc("size.max_segments>8")
+	case e.segsMax > 2:
+		e.St.Inc("size.max_segments_3..8")
+	default:
+		e.St.Inc("size.max_segments<=2")
+	}
 	for f := range e.flags {
 		e.St.Inc("cases_with." + f)
 	}
